@@ -81,7 +81,12 @@ def collect_call_writes(eng, call, fr, assigned, ws, depth):
             ws.coarse_attrs.add(m[1]) if m[0] != "list" else setattr(ws, "coarse_lists", True)
         for r in c.raises:
             for m in r.get("modifies", []):
-                ws.coarse_attrs.add(m[1])
+                if m[0] == "map":
+                    ws.coarse_maps = True
+                elif m[0] == "list":
+                    ws.coarse_lists = True
+                else:
+                    ws.coarse_attrs.add(m[1])
         if c.modifies_lists:
             ws.coarse_lists = True
         if c.modifies_maps:
